@@ -585,44 +585,73 @@ def malformed_inputs():
         ("scalar", lambda: 3.0, (0, 1, 1, True, True)), ("None", lambda: None, (0, 0, 0, False, True)),
         ("ragged", lambda: [[1.0, 2.0, 3.0], [1.0, 2.0]] * 4, (1, N, 1, False, True)),
         ("complex", lambda: X.astype(complex) + 1j, (2, N, D, False, True)),
+        ("complex, zero imaginary part", lambda: X.astype(complex), (2, N, D, False, True)),
+        # non-numeric data that LOOKS numeric: text is not a number, whatever it spells
+        ("unicode strings", lambda: np.round(X, 2).astype(str), (2, N, D, False, True)),
+        ("byte strings", lambda: np.round(X, 2).astype("S"), (2, N, D, False, True)),
+        ("list of lists of str", lambda: [[str(v) for v in row] for row in np.round(X, 2)], (2, N, D, False, True)),
+        ("special number spellings", lambda: [["1.5", "-2", "1e3"]] * (N - 2) + [["nan", "inf", "1"]] * 2, (2, N, D, False, False)),
+        # check_array(dtype="numeric") converts an object array with astype(float64): strings that parse as numbers pass.
+        # The as-is model takes them as numeric (L2); the property does not (L3).
+        ("object array of numeric strings", lambda: np.round(X, 2).astype(str).astype(object), (2, N, D, True, True)),
+        ("object array of words", lambda: np.array([["a", "b", "c"]] * N, dtype=object), (2, N, D, False, True)),
+        ("object array with None", lambda: np.array([[1.0, None, 2.0]] * N, dtype=object), (2, N, D, False, True)),
+        ("object array with a list entry", lambda: np.array([[1.0, [2.0], 3.0]] * N, dtype=object), (2, N, D, False, True)),
         # controls: well-formed data in other containers / dtypes must be accepted
         ("ok:float32", lambda: X.astype(np.float32), (2, N, D, True, True)), ("ok:int", lambda: (X * 10).astype(int) + 1, (2, N, D, True, True)),
-        ("ok:list", lambda: X.tolist(), (2, N, D, True, True)),
+        ("ok:list", lambda: X.tolist(), (2, N, D, True, True)), ("ok:tuple of tuples", lambda: tuple(map(tuple, X.tolist())), (2, N, D, True, True)),
+        ("ok:bool", lambda: X > np.median(X), (2, N, D, True, True)),          # "numeric": a bool array is an integer array of 0/1
+        ("ok:object array of numbers", lambda: X.astype(object), (2, N, D, True, True)),
     ]
 
 
+def entry_points(est):
+    eps = [("fit", lambda Xb: est.fit(Xb)), ("fit_predict", lambda Xb: est.fit_predict(Xb))]
+    if hasattr(est, "path"):
+        eps.append(("path", lambda Xb: est.path(Xb, alpha_multiplier=3.0, min_features=2, max_patience=1)))
+    return eps
+
+
 def stream_malformed(chk, i, rng):
+    """Every estimator x every kind of training data x every data-taking entry point (fit, fit_predict, path)."""
     names = list(impl.ALL_ESTIMATORS)
     kinds = malformed_inputs()
     name, (kind, make, (ndim, n, d, numeric, finite)) = names[i // len(kinds)], kinds[i % len(kinds)]
-    if name == "Kauri":
-        est, m = impl.Kauri(max_clusters=3, min_samples_leaf=3, min_samples_split=6, random_state=0), 3
-    else:
-        est, m = impl.make(name, n_clusters=3, max_iter=1, random_state=0), 3
-    Xb = make()
+    m = 3
     ok = chk.ask(f"c16.data {ndim} {n} {d} {int(numeric)} {int(finite)} {m}").bool()
-    r, exc = outcome(lambda: est.fit(Xb))
-    replay = {"estimator": name, "input": kind}
-    if (r == "accepted") != ok:
-        chk.fail(f"data:model-mismatch:{kind}", f"{name}.fit on {kind} data: {r} ({type(exc).__name__ if r != 'accepted' else ''}: {str(exc)[:120] if r != 'accepted' else ''}), the data rule of the model says {'accept' if ok else 'reject'}", replay)
     well_formed = kind.startswith("ok:")
-    if well_formed and r != "accepted":
-        chk.fail(f"data:well-formed-rejected:{kind}:{family(name)}", f"{name}.fit on well-formed {kind} data raises {type(exc).__name__}: {str(exc)[:160]}", replay, layer="L3")
-    if not well_formed:
-        if r == "accepted":
-            chk.fail(f"data:malformed-accepted:{kind}", f"{name}.fit trains on {kind} data", replay, layer="L3")
-        elif r == "other":
-            chk.fail(f"data:other-exception:{kind}:{family(name)}", f"{name}.fit on {kind} data raises {type(exc).__name__}: {str(exc)[:160]} — neither a ValueError nor a TypeError", replay, layer="L3")
-    if r != "accepted":
-        check_rejected(chk, name, est, None if well_formed else "samples" if kind == "too few samples" else "data", f"{kind} data", replay, data())
-    chk.dist[f"data:{kind}:{r}"] += 1
-    chk.count(("data", name, kind))
+    probe = impl.Kauri() if name == "Kauri" else impl.make(name)
+    for ep, _ in entry_points(probe):
+        if name == "Kauri":
+            est = impl.Kauri(max_clusters=3, min_samples_leaf=3, min_samples_split=6, random_state=0)
+        else:
+            est = impl.make(name, n_clusters=3, max_iter=1, random_state=0)
+        call = dict(entry_points(est))[ep]
+        Xb = make()
+        r, exc = outcome(lambda: call(Xb))
+        replay = {"estimator": name, "input": kind, "entry_point": ep}
+        what = f"{name}.{ep} on {kind} data"
+        if (r == "accepted") != ok:
+            chk.fail(f"data:model-mismatch:{kind}", f"{what}: {r} ({type(exc).__name__ if r != 'accepted' else ''}: {str(exc)[:120] if r != 'accepted' else ''}), the data rule of the model says {'accept' if ok else 'reject'}", replay)
+        if well_formed and r != "accepted":
+            chk.fail(f"data:well-formed-rejected:{kind}:{family(name)}", f"{what} (well formed) raises {type(exc).__name__}: {str(exc)[:160]}", replay, layer="L3")
+        if not well_formed:
+            if r == "accepted":
+                chk.fail(f"data:malformed-accepted:{kind}", f"{what}: the model is trained (labels_ = {np.asarray(getattr(est, 'labels_', [])).tolist()[:8]})", replay, layer="L3")
+            elif r == "other":
+                chk.fail(f"data:other-exception:{kind}:{family(name)}", f"{what} raises {type(exc).__name__}: {str(exc)[:160]} — neither a ValueError nor a TypeError", replay, layer="L3")
+        if r != "accepted":
+            stage = None if (well_formed or ep == "path") else "samples" if kind == "too few samples" else "data"
+            check_rejected(chk, name, est, stage, f"{kind} data through {ep}", replay, data())
+        chk.dist[f"data:{kind}:{ep}:{r}"] += 1
+        chk.count(("data", name, kind, ep))
 
 
 # ------------------------------------------------------------------------------------------- stream: affinity given / missing
 AFFINITY_NAMES = ["LinearMMD", "MLPMMD", "SparseLinearMMD", "SparseMLPMMD", "CategoricalMMD", "LinearWasserstein", "MLPWasserstein",
                   "CategoricalWasserstein", "LinearModel", "MLPModel", "Douglas", "Kauri"]
-AFFINITY_KINDS = ["missing", "wrong-shape", "non-square", "1-D", "3-D", "nan", "strings", "given", "given-as-list"]
+AFFINITY_KINDS = ["missing", "wrong-shape", "non-square", "1-D", "3-D", "nan", "strings", "unicode strings", "byte strings", "list of lists of str",
+                  "object array of numeric strings", "object array with None", "complex", "given", "given-as-list", "given-as-object-array"]
 
 
 def stream_affinity(chk, i, rng):
@@ -650,9 +679,17 @@ def stream_affinity(chk, i, rng):
     nanA[1, 2] = np.nan
     y, shape = {"missing": (None, None), "wrong-shape": (A[:-2, :-2], (2, N - 2, N - 2, 1, 1)), "non-square": (A[:, :-1], (2, N, N - 1, 1, 1)),
                 "1-D": (A[0], (1, N, 1, 1, 1)), "3-D": (A.reshape(N, N, 1), (3, N, N, 1, 1)), "nan": (nanA, (2, N, N, 1, 0)),
-                "strings": (np.array([["a"] * N] * N, dtype=object), (2, N, N, 0, 1)), "given": (A, (2, N, N, 1, 1)), "given-as-list": (A.tolist(), (2, N, N, 1, 1))}[kind]
-    r, exc = outcome(lambda: est.fit(X, y))
-    replay = {"estimator": name, "precomputed": kind}
+                "strings": (np.array([["a"] * N] * N, dtype=object), (2, N, N, 0, 1)),
+                "unicode strings": (np.round(A, 2).astype(str), (2, N, N, 0, 1)), "byte strings": (np.round(A, 2).astype("S"), (2, N, N, 0, 1)),
+                "list of lists of str": ([[str(v) for v in row] for row in np.round(A, 2)], (2, N, N, 0, 1)),
+                # check_array converts object arrays with astype(float64): the as-is rule takes text that parses as numeric (L2)
+                "object array of numeric strings": (np.round(A, 2).astype(str).astype(object), (2, N, N, 1, 1)),
+                "object array with None": (np.where(np.eye(N) > 0, None, A.astype(object)), (2, N, N, 0, 1)),
+                "complex": (A.astype(complex), (2, N, N, 0, 1)),
+                "given": (A, (2, N, N, 1, 1)), "given-as-list": (A.tolist(), (2, N, N, 1, 1)), "given-as-object-array": (A.astype(object), (2, N, N, 1, 1))}[kind]
+    ep = "fit_predict" if i % 2 else "fit"
+    r, exc = outcome(lambda: getattr(est, ep)(X, y))
+    replay = {"estimator": name, "precomputed": kind, "entry_point": ep}
     if shape is not None:
         ok = chk.ask(f"c16.precomputed {shape[0]} {shape[1]} {shape[2]} {N} {shape[3]} {shape[4]}").bool()
         if (r == "accepted") != ok:
@@ -661,7 +698,7 @@ def stream_affinity(chk, i, rng):
         if r != "accepted":
             chk.fail("affinity:given-rejected", f"{name} with a precomputed affinity of the right shape: {type(exc).__name__}: {str(exc)[:160]}", replay, layer="L3")
     else:
-        key = "affinity:missing" if kind == "missing" else "affinity:ill-shaped"
+        key = "affinity:missing" if kind == "missing" else "affinity:ill-shaped" if kind in ("wrong-shape", "non-square", "1-D", "3-D") else "affinity:non-numeric"
         if r == "accepted":
             chk.fail(key, f"{name}.fit trains although the precomputed affinity is {kind}", replay, layer="L3")
         elif r == "other":
